@@ -85,8 +85,14 @@ Second model / new clauses (quick, seeds 0-5 and thorough seed 0, pinned tree):
    judged against the COMPOSED tree, whose running-error bound contains the rounding of the inner map;
    largest err / tolerance accepted: see evidence max_err_over_tolerance_accepted (< 1e-3 by construction).
  * sum rule for the integrand family: tolerance = 1e-9 sum |w' g| + 4 x first-order budget from the accepted
-   node / weight tolerances (derived, see integrand_family); largest err / tolerance measured 7.6e-6 (quick,
-   seeds 0-5) and SUMCAL (thorough); the mutants (|g| integrated, second array ignored) give O(1) relative errors.
+   node / weight tolerances (derived, see integrand_family); largest err / tolerance measured 1.5e-5 (quick,
+   seeds 0-14) and 7.3e-5 (thorough, seed 0, every grid); the mutants (|g| integrated, second array ignored)
+   give O(1) relative errors.  Grids with |node| or |weight| > 1e75 are left out (products of three doubles
+   overflow), positivity is not demanded when every term underflows (reference <= 1e-250).
+ * chains whose inner interval ends ON a pole of the outer map are judged only if LinearFinite reproduces
+   that end exactly in double precision (drawn intervals may give 1 - 1 ulp, whose outer image is a huge
+   finite number: infinitely ill-conditioned, not a defect).
+ * largest err / tolerance over all accepted node / weight observations: 4.5e-4 (quick), 1.8e-3 (thorough).
  * singular-node weight >= 1e10 w: sound code gives >= 6e15 w (Knowles, non-integer k: (2**k - 2.0**k) one
    rounding error off zero) or inf; mutant: nan.
 """
